@@ -341,6 +341,30 @@ var c08Strings = []string{
 	`"` + strings.Repeat("a", 300) + `"`,
 }
 
+// bind statements (and modifier blocks) in every shape the grammar allows, resolvable or not
+var c08BindForms = []string{
+	"* = self,", "* = S,", "* = T,", "* = self.x,", "* = self.p,", "* = T.q,", "* = T.y,", "* = NOPE,", "* = NOPE.a.b,", "* = self.nope,",
+	"x = self.x,", "x = self.nope,", "x = self.p.a,", "x = S,", "x = S.y,", "x = T.q.a,", "x = T.default,", "x = NOPE,", "x = NOPE.out.deep,",
+	"x = 1, x = 2,", "x = 1, * = self,", "* = self, * = self,", "p = {a: self.x, b: T.y},", "p = {a: 1, b: \"s\", c: 3},", "p = {a: 1},", "p = self.p,", "p = T.q,", "p = T,",
+	"x = [self.x],", "x = {\"k\": NOPE},", "x = [T.y, S.y],", "x = null,", "x = \"s\",", "p = null,", "nope = 1,", "",
+	"x = split self.x,", "x = split [1, 2],", "x = split T.y,", "x = split {\"a\": 1},", "x = split NOPE,", "x = split self.xs, p = split self.ps,", "x = split [1], p = split {\"a\": {a: 1, b: \"s\"}},",
+	"x = split [],", "x = split {},", "p = split self,",
+}
+
+var c08BindTemplates = []string{
+	// top-level call of a stage / a pipeline / something undeclared
+	"struct PAIR(int a, string b,)\nstage S(in int x, in PAIR p, out int y, src py \"s\",)\nstage T(in int x, out int y, out PAIR q, src py \"t\",)\ncall S(\n    %s\n)\n",
+	"struct PAIR(int a, string b,)\nstage S(in int x, in PAIR p, out int y, src py \"s\",)\nstage T(in int x, out int y, out PAIR q, src py \"t\",)\nmap call S(\n    %s\n)\n",
+	"struct PAIR(int a, string b,)\nstage S(in int x, in PAIR p, out int y, src py \"s\",)\ncall local preflight volatile S(\n    %s\n) using (\n    disabled = self.x,\n)\n",
+	"struct PAIR(int a, string b,)\nstage S(in int x, in PAIR p, out int y, src py \"s\",)\ncall S(\n    x = 1,\n) using (\n    disabled = S.y,\n    local = true,\n)\n%s",
+	"struct PAIR(int a, string b,)\nstage S(in int x, in PAIR p, out int y, src py \"s\",)\npipeline P(in int x, in PAIR p, out int y,)\n{\n    call S(\n        %s\n    )\n    return (\n        y = S.y,\n    )\n}\ncall P(\n    %s\n)\n",
+	"call NOPE(\n    %s\n)\n",
+	// inside a pipeline: call bindings and return bindings
+	"struct PAIR(int a, string b,)\nstage S(in int x, in PAIR p, out int y, src py \"s\",)\nstage T(in int x, out int y, out PAIR q, src py \"t\",)\npipeline P(in int x, in int[] xs, in PAIR p, in PAIR[] ps, out int y, out PAIR q,)\n{\n    call T(\n        x = self.x,\n    )\n    call S(\n        %s\n    )\n    return (\n        y = S.y,\n        q = T.q,\n    )\n}\n",
+	"struct PAIR(int a, string b,)\nstage S(in int x, in PAIR p, out int y, src py \"s\",)\nstage T(in int x, out int y, out PAIR q, src py \"t\",)\npipeline P(in int x, in int[] xs, in PAIR p, in PAIR[] ps, out int y, out PAIR q,)\n{\n    call T(\n        x = self.x,\n    )\n    map call S(\n        %s\n    ) using (\n        disabled = T.y,\n    )\n    return (\n        y = S.y,\n        q = T.q,\n    )\n}\n",
+	"struct PAIR(int a, string b,)\nstage T(in int x, out int y, out PAIR q, src py \"t\",)\npipeline P(in int x, in PAIR p, out int y, out PAIR q, out int x,)\n{\n    call T(\n        x = self.x,\n    )\n    return (\n        %s\n    )\n}\n",
+}
+
 var c08Keywords = []string{"as", "bool", "call", "comp", "default", "disabled", "exec", "false", "filetype", "float",
 	"in", "int", "local", "map", "mem_gb", "memgb", "null", "out", "path", "pipeline", "preflight", "py", "retain",
 	"return", "self", "special", "split", "src", "stage", "strict", "string", "struct", "threads", "true", "using",
@@ -353,6 +377,7 @@ var (
 	c08ReNum = regexp.MustCompile(`-?[0-9]+(?:\.[0-9]+)?(?:[eE][+-]?[0-9]+)?`)
 	c08ReStr = regexp.MustCompile(`"(?:[^"\\\n]|\\.)*"`)
 	c08ReId  = regexp.MustCompile(`[A-Za-z_][A-Za-z0-9_]*`)
+	c08ReBind = regexp.MustCompile(`(?:[A-Za-z_][A-Za-z0-9_]*|\*)[ \t]*=[ \t]*[^,\n(){}\[\]]+,`)
 )
 
 func c08ReplaceMatch(c *Ctx, src []byte, re *regexp.Regexp, repl func() string) ([]byte, bool) {
@@ -392,7 +417,10 @@ func c08Mutate(c *Ctx, seed []byte, others []c08Seed) ([]byte, string) {
 	for i := 0; i < k; i++ {
 		ok := false
 		name := ""
-		switch c.Rng.Intn(11) {
+		switch c.Rng.Intn(12) {
+		case 11:
+			name = "bind-form"
+			src, ok = c08ReplaceMatch(c, src, c08ReBind, func() string { return c08BindForms[c.Rng.Intn(len(c08BindForms))] })
 		case 0, 1:
 			name = "numeral"
 			src, ok = c08ReplaceMatch(c, src, c08ReNum, func() string { return c08Numerals[c.Rng.Intn(len(c08Numerals))] })
@@ -603,18 +631,46 @@ func runC08(c *Ctx) {
 		}
 	}
 
+	// ---- 0 + 2. corpus and API-level monitors, in a child process: a fatal Go error
+	// (stack overflow, out of memory) in the code under test cannot be recovered in-process.
+	// The child runs concurrently with the other phases; its result is merged at the end. ----
+	t0 := time.Now()
+	apiDone := make(chan *Result, 1)
+	go func() {
+		sub := &Result{}
+		cc := *c
+		cc.Res = sub
+		c08RunAPIChild(&cc)
+		apiDone <- sub
+	}()
+
 	// ---- 1. token-level correspondence ----
 	c08Tokens(c)
-
-	// ---- 0 + 2. corpus and API-level monitors, in a child process: a fatal Go error
-	// (stack overflow, out of memory) in the code under test cannot be recovered in-process ----
-	c08RunAPIChild(c)
-
 	// ---- 3. src_stm action: Go vs model ----
 	c08SrcAction(c)
+	tTok := time.Since(t0)
 
 	// ---- 4. scaling probes (subprocess) ----
+	t1 := time.Now()
 	c08Scaling(c)
+	tScale := time.Since(t1)
+
+	sub := <-apiDone
+	r.Evals += sub.Evals
+	r.Distinct += sub.Distinct
+	for _, x := range sub.Samples {
+		r.sample(x)
+	}
+	for k, v := range sub.Histogram {
+		if r.Histogram == nil {
+			r.Histogram = map[string]int{}
+		}
+		r.Histogram[k] += v
+	}
+	r.Violations = append(r.Violations, sub.Violations...)
+	r.Notes = append(r.Notes, sub.Notes...)
+	r.note("phase wall times: tokens+src action %.1fs, scaling probes %.1fs, API monitors (child, concurrent) done after %.1fs",
+		tTok.Seconds(), tScale.Seconds(), time.Since(t0).Seconds())
 }
 
 // c08RunAPIChild runs runC08API in a subprocess and merges its result; if the child dies,
@@ -778,6 +834,14 @@ func runC08API(c *Ctx) {
 			src := strings.ReplaceAll(tmpl, "%s", s)
 			r.hist("catalogue-string")
 			checkInput([]byte(src), filepath.Join(c.Scratch, "s.mro"), nil, "string-catalogue", true)
+		}
+	}
+	// every bind-statement form in a top-level call, a pipeline call and a return statement
+	for _, b := range c08BindForms {
+		for _, tmpl := range c08BindTemplates {
+			src := strings.ReplaceAll(tmpl, "%s", b)
+			r.hist("catalogue-bind-form")
+			checkInput([]byte(src), filepath.Join(c.Scratch, "b.mro"), nil, "bind-form-catalogue", true)
 		}
 	}
 	// truncation at every byte of the small seeds
@@ -1180,6 +1244,13 @@ func c08ProbeInput(kind string, n int) []byte {
 			fmt.Fprintf(&sb, "call S as C%d(x = self.x,)\n", i)
 		}
 		sb.WriteString("return (y = C0.y,)\n}\n")
+	case "struct-assign":
+		// structurally equal but differently named nested structs: A_n <- B_n
+		sb.WriteString("struct A0(int x,)\nstruct B0(int x,)\n")
+		for i := 1; i <= n; i++ {
+			fmt.Fprintf(&sb, "struct A%d(A%d l, A%d r,)\nstruct B%d(B%d l, B%d r,)\n", i, i-1, i-1, i, i-1, i-1)
+		}
+		fmt.Fprintf(&sb, "stage T(out B%d b, src py \"t\",)\nstage S(in A%d a, src py \"s\",)\npipeline P()\n{\n    call T()\n    call S(a = T.b,)\n    return ()\n}\n", n, n)
 	case "many-invalid":
 		sb.WriteString(strings.Repeat("\x01", n))
 	case "many-quotes":
@@ -1251,7 +1322,7 @@ func c08Scaling(c *Ctx) {
 		{"long-unterminated", long}, {"leading-zeros", long}, {"dotted-id", long}, {"array-dims", []int{100, 32767, 32768, 70000}},
 		{"many-stages", decl}, {"many-params", decl}, {"trailing-comments", decl}, {"leading-comments", decl},
 		{"call-chain", []int{40, 120, 360}}, {"call-chain-reversed", []int{40, 120, 360}}, {"wide-calls", decl},
-		{"many-invalid", long}, {"many-quotes", long}, {"many-spaces", long},
+		{"struct-assign", []int{12, 18, 24}}, {"many-invalid", long}, {"many-quotes", long}, {"many-spaces", long},
 	}
 	self, err := os.Executable()
 	if err != nil {
